@@ -125,6 +125,9 @@ Proof.
     unfold in_irect, ishift, i_right, i_bottom in *; simpl in *. lia.
 Qed.
 
+Lemma insideb_iff_early a b : insideb a b = true <-> inside a b.
+Proof. unfold insideb, inside. rewrite !andb_true_iff, !Z.leb_le. tauto. Qed.
+
 (* ---------------------------------------------------------------- max_bbox *)
 Definition CANVAS_MAX : Z := 268435456. (* 2^28 *)
 Lemma max_bbox_spec W H : 1 <= W <= CANVAS_MAX -> 1 <= H <= CANVAS_MAX ->
@@ -164,6 +167,15 @@ Proof.
   apply irect_from_xywh_Some. unfold mk_irect. consts. repeat split; lia.
 Qed.
 
+Lemma geom_to_int_rect_small b : small_bbox b -> geom_to_int_rect b = Some (raw_box b false).
+Proof.
+  intros [[X1 X2] [[Y1 Y2] [[W1 W2] [H1 H2]]]]. unfold geom_to_int_rect, raw_box.
+  rewrite !as_i32_id, !as_u32_id by (consts; lia).
+  apply irect_from_xywh_Some. unfold mk_irect. consts. repeat split; lia.
+Qed.
+Lemma filter_to_int_rect_small b : small_bbox b -> filter_to_int_rect b = Some (raw_box b false).
+Proof. intro S. unfold filter_to_int_rect. apply geom_to_int_rect_small. exact S. Qed.
+
 Lemma raw_box_valid b nf : small_bbox b -> valid_irect (raw_box b nf).
 Proof.
   intros [[X1 X2] [[Y1 Y2] [[W1 W2] [H1 H2]]]]. unfold valid_irect, raw_box. consts.
@@ -173,7 +185,7 @@ Qed.
 Lemma layer_panics_small b nf : small_bbox b -> layer_panics b nf = false.
 Proof.
   intro S. unfold layer_panics, to_int_rect_panics. rewrite (to_int_rect_small b S).
-  destruct nf; reflexivity.
+  destruct nf, layer_to_int_rect_unwraps; reflexivity.
 Qed.
 
 Lemma layer_ibbox_small b nf m : small_bbox b ->
@@ -188,7 +200,7 @@ Proof.
       replace (irect_from_xywh x y w h) with (Some (raw_box b true)) end.
     + destruct (fit_to_rect (raw_box b true) m); reflexivity.
     + symmetry. apply irect_from_xywh_Some. unfold raw_box, mk_irect. consts. repeat split; lia.
-  - cbv zeta. unfold rect_to_int_rect. rewrite (to_int_rect_small b S).
+  - cbv zeta. rewrite (geom_to_int_rect_small b S).
     destruct (fit_to_rect (raw_box b false) m); reflexivity.
 Qed.
 
@@ -210,9 +222,8 @@ Proof.
     destruct (fit_to_rect i m) as [j|] eqn:E2; [|discriminate]. inversion E; subst j.
     pose proof (irect_from_xywh_valid _ _ _ _ _ E1) as Vi.
     destruct (fit_to_rect_pixels i m r Vi Vm E2) as [A [_ [B _]]]. split; assumption.
-  - cbv zeta in E. unfold layer_panics, to_int_rect_panics in P. simpl in P.
-    unfold rect_to_int_rect in E.
-    destruct (rect_to_int_rect_opt b) as [i|] eqn:E1; [|discriminate].
+  - cbv zeta in E.
+    destruct (geom_to_int_rect b) as [i|] eqn:E1; [|discriminate].
     pose proof (irect_from_xywh_valid _ _ _ _ _ E1) as Vi.
     destruct (fit_to_rect i m) as [j|] eqn:E2; [|discriminate]. inversion E; subst j.
     destruct (fit_to_rect_pixels i m r Vi Vm E2) as [A [_ [B _]]]. split; assumption.
@@ -391,6 +402,66 @@ Proof.
   - unfold inside, in_irect, canvas_rect, i_right, i_bottom in *; simpl in *. lia.
 Qed.
 
+Lemma layer_covers_content_canvas b W H m px py :
+  small_bbox b -> 1 <= W <= CANVAS_MAX -> 1 <= H <= CANVAS_MAX -> max_bbox W H = Some m ->
+  in_irect (canvas_rect W H) px py -> touches b 1%Q px py ->
+  in_lres (layer_box b true m) px py.
+Proof.
+  intros S HW HH Hm C T.
+  destruct (canvas_in_max_bbox W H HW HH) as [m' [E [V [I _]]]].
+  rewrite Hm in E. inversion E; subst m'. eapply layer_covers_content; eassumption.
+Qed.
+
+(* nested layers: the group is laid out in the frame of its parent layer *)
+Lemma layer_covers_content_frame b m W H ox oy px py :
+  small_bbox b -> valid_irect m -> frame_ok W H ox oy m ->
+  in_irect (canvas_rect W H) px py -> touches b 1%Q (px - ox) (py - oy) ->
+  in_lres (layer_box b true m) (px - ox) (py - oy).
+Proof.
+  intros S Vm F C T. apply layer_pixels_small; auto. split.
+  - apply touches_raw_box; assumption.
+  - unfold frame_ok, inside, in_irect, canvas_rect, ishift, i_right, i_bottom in *; simpl in *. lia.
+Qed.
+
+(* one enclosing layer is always fine: its origin lies within [-2W, W) *)
+Lemma frame_ok_depth1 W H m P px py :
+  1 <= W <= CANVAS_MAX -> 1 <= H <= CANVAS_MAX -> max_bbox W H = Some m ->
+  valid_irect P -> inside P m -> in_irect P px py -> in_irect (canvas_rect W H) px py ->
+  frame_ok W H (ix P) (iy P) m.
+Proof.
+  intros HW HH Hm VP I Pp C. rewrite (max_bbox_spec W H HW HH) in Hm. inversion Hm; subst m; clear Hm.
+  unfold frame_ok, inside, in_irect, canvas_rect, ishift, i_right, i_bottom, mk_irect, valid_irect,
+    MAXBB_OFF_X, MAXBB_OFF_Y, MAXBB_MUL_W, MAXBB_MUL_H in *; cbn [ix iy iw ih] in *. lia.
+Qed.
+
+Lemma frame_okb_iff W H ox oy m : frame_okb W H ox oy m = true <-> frame_ok W H ox oy m.
+Proof. unfold frame_okb, frame_ok. apply insideb_iff_early. Qed.
+
+(* three nested isolated groups: the innermost layer is clamped against the untranslated max_bbox and
+   loses pixels that are on the canvas, inside both enclosing layers and inside the content
+   (100x100 canvas, a rect from x=-300 to 500: the numbers are the recorded trace of the real renderer) *)
+Lemma nested_clamp_refuted :
+  exists W H m b1 P1 b2 P2 b3 px py,
+    max_bbox W H = Some m /\ layer_box b1 true m = LBox P1 /\ layer_box b2 true m = LBox P2 /\
+    small_bboxb b3 = true /\
+    in_irect (canvas_rect W H) px py /\ in_irect P1 px py /\ in_irect P2 (px - ix P1) (py - iy P1) /\
+    frame_okb W H (ix P1 + ix P2) (iy P1 + iy P2) m = false /\
+    touches b3 0%Q (px - ix P1 - ix P2) (py - iy P1 - iy P2) /\
+    ~ in_lres (layer_box b3 true m) (px - ix P1 - ix P2) (py - iy P1 - iy P2).
+Proof.
+  exists 100, 100, (mk_irect (-200) (-200) 500 500),
+    (mk_qrect (-(300 # 1)) (10 # 1) (800 # 1) (80 # 1)), (mk_irect (-200) 8 500 84),
+    (mk_qrect (-(100 # 1)) (2 # 1) (800 # 1) (80 # 1)), (mk_irect (-102) 0 402 84),
+    (mk_qrect (2 # 1) (2 # 1) (800 # 1) (80 # 1)), 50, 50.
+  split; [vm_compute; reflexivity|]. split; [vm_compute; reflexivity|]. split; [vm_compute; reflexivity|].
+  split; [vm_compute; reflexivity|].
+  split; [vm_compute; intuition discriminate|]. split; [vm_compute; intuition discriminate|].
+  split; [vm_compute; intuition discriminate|]. split; [vm_compute; reflexivity|].
+  split.
+  - unfold touches, mk_qrect, mk_irect; simpl. unfold Qlt; simpl. lia.
+  - vm_compute. intros [[_ A] _]. discriminate A.
+Qed.
+
 (* ---------------------------------------------------------------- outside the i32 range *)
 (* a group whose device box does not fit i32 arithmetic: the isolated group is skipped (`?` on
    IntRect::from_xywh) although it covers the canvas; the filter branch panics in to_int_rect().unwrap() *)
@@ -405,12 +476,20 @@ Proof.
   - unfold touches, huge_bbox, mk_qrect; simpl. unfold Qlt; simpl. lia.
   - intros m Hm. vm_compute in Hm. inversion Hm; subst. vm_compute. reflexivity.
 Qed.
-Lemma huge_filter_group_panics :
-  exists b m, valid_irect m /\ small_bboxb b = false /\ layer_box b false m = LPanic.
+(* the filtered branch: since geom::to_int_rect is checked, such a group is skipped as well *)
+Lemma huge_filter_group_skipped :
+  exists b m, valid_irect m /\ small_bboxb b = false /\ layer_box b false m = LSkip.
 Proof.
   exists huge_bbox, (mk_irect (-200) (-200) 500 500). split.
   - unfold valid_irect, mk_irect; simpl. consts. lia.
   - split; vm_compute; reflexivity.
+Qed.
+Lemma filter_region_checked : filter_to_int_rect_unwraps = false /\ layer_to_int_rect_unwraps = false.
+Proof. split; reflexivity. Qed.
+Lemma layer_total b nf m : layer_box b nf m <> LPanic.
+Proof.
+  unfold layer_box, layer_panics. change layer_to_int_rect_unwraps with false. simpl.
+  destruct (layer_ibbox b nf m); discriminate.
 Qed.
 Lemma small_bbox_iff b : small_bboxb b = true <-> small_bbox b.
 Proof.
@@ -431,7 +510,7 @@ Proof.
   assert (S' : small_bbox (qshift (- ix (raw_box b false)) (- iy (raw_box b false)) b)).
   { destruct S as [[X1 X2] [[Y1 Y2] [W H]]]. unfold small_bbox, qshift; cbn [rx ry rw rh].
     rewrite !floor_shift. unfold raw_box; cbn [ix iy]. consts. repeat split; lia. }
-  rewrite (to_int_rect_small _ S'). rewrite raw_box_shift. unfold ishift; simpl.
+  rewrite (filter_to_int_rect_small _ S'). rewrite raw_box_shift. unfold ishift; simpl.
   rewrite !Z.eqb_refl. reflexivity.
 Qed.
 Lemma filter_sizes_agree_refuted :
@@ -442,4 +521,113 @@ Proof.
   exists (mk_qrect 0 0 (1000 # 1) (50 # 1)), (mk_irect (-200) (-200) 500 500). split.
   - unfold valid_irect, mk_irect; simpl. consts. lia.
   - repeat split; vm_compute; reflexivity.
+Qed.
+
+(* ---------------------------------------------------------------- C13 extras *)
+Lemma floor_ceil_shift x d :
+  f32_floor (x + inject_Z d)%Q = f32_floor x + d /\ f32_ceil (x + inject_Z d)%Q = f32_ceil x + d.
+Proof. split; [apply floor_shift | apply ceil_shift]. Qed.
+
+Lemma layers_agree_on_canvas_max dx dy b nf W H m px py :
+  small_bbox b -> small_bbox (qshift dx dy b) ->
+  1 <= W <= CANVAS_MAX -> 1 <= H <= CANVAS_MAX -> max_bbox W H = Some m ->
+  in_irect (canvas_rect W H) px py -> in_irect (canvas_rect W H) (px + dx) (py + dy) ->
+  (in_lres (layer_box b nf m) px py <-> in_lres (layer_box (qshift dx dy b) nf m) (px + dx) (py + dy)).
+Proof.
+  intros S S' HW HH Hm C C'.
+  destruct (canvas_in_max_bbox W H HW HH) as [m' [E [V [I _]]]].
+  rewrite Hm in E. inversion E; subst m'. eapply layers_agree_on_canvas; eassumption.
+Qed.
+
+Lemma layer_box_unclamped b m : small_bbox b -> valid_irect m -> filter_layer_clamped b m = false ->
+  layer_box b false m = LBox (raw_box b false).
+Proof.
+  intros S Vm C. unfold filter_layer_clamped in C. apply negb_false_iff, insideb_iff in C.
+  rewrite (layer_box_small b false m S).
+  rewrite (fit_to_rect_inside_id _ _ (raw_box_valid b false S) Vm C). reflexivity.
+Qed.
+
+Lemma filter_region_unclamped b : small_bbox b ->
+  filter_region b (raw_box b false) = Some (mk_irect 0 0 (iw (raw_box b false)) (ih (raw_box b false))).
+Proof.
+  intro S. unfold filter_region.
+  assert (S' : small_bbox (qshift (- ix (raw_box b false)) (- iy (raw_box b false)) b)).
+  { destruct S as [[X1 X2] [[Y1 Y2] [W H]]]. unfold small_bbox, qshift; cbn [rx ry rw rh].
+    rewrite !floor_shift. unfold raw_box; cbn [ix iy]. consts. repeat split; lia. }
+  rewrite (filter_to_int_rect_small _ S'). rewrite raw_box_shift. unfold ishift, mk_irect; cbn [ix iy iw ih].
+  f_equal. f_equal; lia.
+Qed.
+
+Lemma filter_region_equivariant dx dy b m :
+  small_bbox b -> small_bbox (qshift dx dy b) -> valid_irect m ->
+  filter_layer_clamped b m = false -> filter_layer_clamped (qshift dx dy b) m = false ->
+  forall i i', layer_box b false m = LBox i -> layer_box (qshift dx dy b) false m = LBox i' ->
+  i' = ishift dx dy i /\ filter_region (qshift dx dy b) i' = filter_region b i.
+Proof.
+  intros S S' Vm C C' i i' H H'.
+  rewrite (layer_box_unclamped b m S Vm C) in H. rewrite (layer_box_unclamped _ m S' Vm C') in H'.
+  assert (Hi : raw_box b false = i) by congruence.
+  assert (Hi' : raw_box (qshift dx dy b) false = i') by congruence.
+  rewrite <- Hi, <- Hi'. split.
+  - apply raw_box_shift.
+  - rewrite (filter_region_unclamped _ S'), (filter_region_unclamped _ S). rewrite raw_box_shift.
+    reflexivity.
+Qed.
+
+(* a nested group in a frame whose origin is 250 px left of a 100 px canvas: the same content is clamped
+   away before a -20 shift and partly visible after it *)
+Lemma nested_shift_refuted :
+  exists W H m b dx dy ox px py,
+    max_bbox W H = Some m /\ small_bboxb b = true /\ small_bboxb (qshift dx dy b) = true /\
+    frame_okb W H ox 0 m = false /\
+    in_irect (canvas_rect W H) px py /\ in_irect (canvas_rect W H) (px + dx) (py + dy) /\
+    in_lres (layer_box (qshift dx dy b) true m) (px + dx - ox) (py + dy) /\
+    ~ in_lres (layer_box b true m) (px - ox) py.
+Proof.
+  (* frame origin -250 (enclosing layers clamped at the left edge of max_bbox do not move with the root
+     shift); local content box 305..325 = device 55..75 lies beyond the untranslated clamp edge 300 and is
+     dropped; after a root shift by -20 it is 285..305 and partly survives *)
+  exists 100, 100, (mk_irect (-200) (-200) 500 500), (mk_qrect (305 # 1) (10 # 1) (20 # 1) (20 # 1)),
+    (-20), 0, (-250), 60, 15.
+  split; [vm_compute; reflexivity|]. split; [vm_compute; reflexivity|]. split; [vm_compute; reflexivity|].
+  split; [vm_compute; reflexivity|].
+  split; [vm_compute; intuition discriminate|]. split; [vm_compute; intuition discriminate|].
+  split.
+  - vm_compute. intuition discriminate.
+  - vm_compute. intro A. exact A.
+Qed.
+
+(* ---------------------------------------------------------------- C02 extras *)
+Lemma fit_to_rect_spec r b : valid_irect r -> valid_irect b ->
+  (forall q, fit_to_rect r b = Some q ->
+     valid_irect q /\ inside q r /\ inside q b /\
+     forall px py, in_irect q px py <-> (in_irect r px py /\ in_irect b px py)) /\
+  (fit_to_rect r b = None <-> forall px py, ~ (in_irect r px py /\ in_irect b px py)).
+Proof.
+  intros Vr Vb. split.
+  - intros q H. apply fit_to_rect_pixels; assumption.
+  - apply fit_to_rect_None; assumption.
+Qed.
+
+Lemma layer_bounded b nf W H m r :
+  1 <= W <= CANVAS_MAX -> 1 <= H <= CANVAS_MAX -> max_bbox W H = Some m -> layer_box b nf m = LBox r ->
+  valid_irect r /\ inside r m /\ layer_size r = (iw r, ih r) /\
+  iw r <= MAXBB_MUL_W * W /\ ih r <= MAXBB_MUL_H * H /\
+  iw r * ih r <= (MAXBB_MUL_W * MAXBB_MUL_H) * (W * H).
+Proof.
+  intros HW HH Hm L.
+  destruct (canvas_in_max_bbox W H HW HH) as [m' [E [V [I [Ew Eh]]]]].
+  rewrite Hm in E. inversion E; subst m'.
+  destruct (layer_within_max b nf m r V L) as [Vr Ir].
+  destruct (inside_size r m Ir Vr) as [A [B C]].
+  rewrite Ew, Eh in *. unfold MAXBB_MUL_W, MAXBB_MUL_H in *.
+  split; [exact Vr|]. split; [exact Ir|]. split; [reflexivity|]. lia.
+Qed.
+
+Lemma unfiltered_layer_total b m : layer_box b true m <> LPanic.
+Proof. unfold layer_box, layer_panics. simpl. destruct (layer_ibbox b true m); discriminate. Qed.
+
+Lemma small_layer_no_panic b nf m : small_bbox b -> layer_box b nf m <> LPanic.
+Proof.
+  intro S. rewrite (layer_box_small b nf m S). destruct (fit_to_rect (raw_box b nf) m); discriminate.
 Qed.
